@@ -19,6 +19,7 @@
      "adj"  R, C, conn; calls = [d0, d1, r, o] of connection_list_to_adj_list; edges, isc = is_connection(edges, conn) [r, o]
      "c2s"  items, ck, mode, r, o (coords_to_strings);  "c2t"  v, ut, ix (_coord_to_strings_UT / _indexed)
      "bool" cs, shape, sym, r, flat, oshape;  "pad" toks, s;  "lat" n, edges, deg, man
+     optional on every record: argmod = names of the functions that modified the caller's own argument (M:argument_modified)
 
    Tolerated documented-vs-actual deviations (each reported to the maintainers of the harness, see DESIGN.md):
      TokenUtils!QuirkAdjacent, QuirkSurplusParens, QuirkPathToListEnd, lattice_max_degrees(1) - the documented
@@ -111,11 +112,14 @@ LatClauses(r) ==
           \/ n = 1 /\ r.deg = <<(<<2>>)>>, "M:lattice_max_degrees")
   \cup If(\A k \in 1..Len(r.man) : r.man[k].d = Manhattan(r.man[k].e[1], r.man[k].e[2]), "M:manhattan_distance")
 
-Clauses(r) ==
+\* side effects on the caller's objects: the harness hands every function its own list / array and compares afterwards
+ArgClauses(r) == IF "argmod" \in DOMAIN r /\ r.argmod # <<>> THEN {"M:argument_modified"} ELSE {}
+ClausesOf(r) ==
   CASE r.t = "lex" -> LexClauses(r) [] r.t = "s2l" -> S2LClauses(r) [] r.t = "tb" -> TBClauses(r) [] r.t = "get" -> GetClauses(r)
     [] r.t = "eq" -> EqClauses(r) [] r.t = "dir" -> DirClauses(r) [] r.t = "adj" -> AdjClauses(r) [] r.t = "c2s" -> C2SClauses(r)
     [] r.t = "c2t" -> C2TClauses(r) [] r.t = "bool" -> BoolClauses(r) [] r.t = "pad" -> PadClauses(r) [] r.t = "lat" -> LatClauses(r)
     [] OTHER -> {"M:unknown_record"}
+Clauses(r) == ArgClauses(r) \cup ClausesOf(r)
 
 VARIABLES l, bad
 TInit == l = 1 /\ bad = {} /\ mach = "oracle" /\ inp = <<>> /\ pc = "" /\ reg = <<>>
